@@ -960,9 +960,37 @@ def classify(case, desc, finding):
 
 def check_cases(run, cases, record=True):
     results = run_cases(run.scratch, cases)
-    rendered = []
-    keep = []
-    for case, (res, keyorder) in zip(cases, results):
+    known = run.finding_ids()
+
+    def model_of(idx):
+        rendered = [render(cases[k], results[k][1]) for k in idx]
+        return dict(zip(idx, common.coq_map(
+            run.scratch, "c14_%d" % len(idx), HEADER, "run_flat", rendered,
+            shard=200)))
+
+    idx = [k for k in range(len(cases)) if results[k][1] is not None
+           and results[k][0]["status"] != 3]
+    model = model_of(idx)
+    # Timeouts, disagreements and unknown oracle failures are re-run once
+    # (4 workers, quiet machine): a loaded machine can make a loopback
+    # request miss dclab's 0.5 s / 1 s socket timeouts.
+    again = []
+    for k in idx:
+        res = results[k][0]
+        f = oracle(cases[k], res)
+        if res["status"] == 1 or flat_impl(res) != model[k] or (
+                f is not None and f[1] not in known):
+            again.append(k)
+    if again and len(again) <= 200:
+        redo = run_cases(run.scratch, [cases[k] for k in again], nproc=4)
+        for k, r in zip(again, redo):
+            if r[1] is not None and r[0]["status"] != 3:
+                if flat_impl(r[0]) != flat_impl(results[k][0]):
+                    run.count("unstable-observation")
+                results[k] = r
+        run.count("re-run", len(again))
+    for k, case in enumerate(cases):
+        res, keyorder = results[k]
         if record:
             run.record_case(case, res.get("followed", 0) > 0)
             run.count("root:%s" % case["root"]["fmt"])
@@ -974,23 +1002,17 @@ def check_cases(run, cases, record=True):
             run.count("status=%d" % res["status"])
             if res["fb"] and res["fb"] != [-2]:
                 run.count("offers-basin-features")
-        if res["status"] == 3:
+        if res["status"] == 3 or keyorder is None:
             run.broken.append(("harness(C14)", "case could not be written: "
                                "%s" % res.get("error")))
             continue
         fail = oracle(case, res)
         if fail is not None:
             run.oracle_failure(case, fail[0], fail[1])
-        if keyorder is not None:
-            rendered.append(render(case, keyorder))
-            keep.append((case, res))
-    model = common.coq_map(run.scratch, "c14", HEADER, "run_flat", rendered,
-                           shard=200)
-    for (case, res), m in zip(keep, model):
-        run.corr_checked += 1
-        i = flat_impl(res)
-        if m != i:
-            run.mismatch(case, m, i)
+        if k in model:
+            run.corr_checked += 1
+            if model[k] != flat_impl(res):
+                run.mismatch(case, model[k], flat_impl(res))
 
 
 def run(run):
